@@ -172,11 +172,22 @@ def check (pid : String) (j : Json) : Except String Verdict := do
   let steps ← jArr j "steps"
   let mut idx := 0
   let mut accepted := 0
+  let mut idleSince : List (RType × String × Nat) := []   -- C19: last lookup (or caching) time per entry
   for st in steps.toList do
     idx := idx + 1
     let kind := jStrD st "o" "?"
     if kind = "sendfail-on" then
       r := { r with failing := r.failing ++ [r.s.recvStream] }
+      continue
+    if kind = "backdate" then
+      let rt ← match rtOfStr (jStrD st "rt" "?") with | some t => pure t | none => throw "backdate: type"
+      let n ← jStr st "n"
+      let applied := jBoolD st "applied" false
+      let hasClock := match r.s.acc rt n with | some (some _) => true | _ => false
+      if applied != hasClock then r := r.fail s!"step {idx} (backdate {rtStr rt}/{n}): model last-access present={hasClock}, impl {applied}"
+      if applied then
+        r := r.op cfg (.touch rt n (jNatD st "now" 0)) "backdate"
+        idleSince := (idleSince.filter (fun e => !(e.1 = rt && e.2.1 = n))) ++ [(rt, n, jNatD st "now" 0)]
       continue
     let now := jNatD st "now" 0
     let what := s!"step {idx} ({kind})"
@@ -185,9 +196,32 @@ def check (pid : String) (j : Json) : Except String Verdict := do
     let sendOk := !(r.failing.contains r.s.recvStream) && !r.s.closed && r.s.senderStream == some r.s.recvStream
     let wasClosed := r.s.closed
     match kind with
+    | "tick" =>
+      -- evictions in the order the cleaner performed them, read off the requests: each lists one name fewer
+      let mut cur : RType → List String := fun rt => (prev.interest rt).getD []
+      for q in o.reqs do
+        let before := cur q.rt
+        match before.filter (fun n => !q.names.contains n) with
+        | [n] =>
+          r := r.op cfg (.evict q.rt n now) s!"{what}: evict {rtStr q.rt}/{n}"
+          let rtq := q.rt
+          let nm := q.names
+          let old := cur
+          cur := fun rt => if rt = rtq then nm else old rt
+        | l => r := r.fail s!"{what}: request {showReq q} does not remove exactly one name (removed {l})"
+      r := r.drain cfg
+      r := r.compare o oj uni what
+      -- nothing else was evictable: every remaining entry of the universe is not enabled for eviction
+      for rt in [RType.lds, .rds, .cds, .eds] do
+        for n in uni rt do
+          if (step cfg r.s (.evict rt n now)).isSome then
+            r := r.fail s!"{what}: model says {rtStr rt}/{n} is expired but the sweep kept it"
+      if pid = "C19" then r := r.specFail (c19tick prev o idleSince now)
     | "get" =>
       let rt ← match rtOfStr (jStrD st "rt" "?") with | some t => pure t | none => throw "get: type"
       let n ← jStr st "n"
+      if (lookupC prev rt n).isSome then
+        idleSince := (idleSince.filter (fun e => !(e.1 = rt && e.2.1 = n))) ++ [(rt, n, now)]
       r := r.op cfg (.touch rt n now) what
       let expected := match r.s.cache rt n with
         | some v => s!"val:{v}"
@@ -226,6 +260,12 @@ def check (pid : String) (j : Json) : Except String Verdict := do
       r := r.drain cfg
       r := r.compare o oj uni what
       if resp.decodes && (prev.interest rt).isSome then accepted := accepted + 1
+      -- C19 bookkeeping: a newly cached entry is idle since it was cached
+      for e in o.cache rt do
+        if (lookupC prev rt e.1).isNone && !(idleSince.any (fun x => x.1 = rt && x.2.1 = e.1)) then
+          idleSince := idleSince ++ [(rt, e.1, now)]
+      idleSince := idleSince.filter (fun x => !(x.1 = rt) || (lookupC o rt x.2.1).isSome)
+      if pid = "C19" && (lookupC prev rt "").isNone then r := r.specFail (c01 cfg r.rops uni o)
       if pid = "C01" then r := r.specFail (c01 cfg r.rops uni o)
       if pid = "C02" then r := r.specFail (c02 prev o (some rt) v nonce resp.decodes sendOk)
       if pid = "C03" then r := r.specFail (c03change prev o none)
@@ -286,6 +326,7 @@ def check (pid : String) (j : Json) : Except String Verdict := do
     | "C01" => accepted ≥ 2
     | "C02" => steps.toList.any (fun st => jStrD st "o" "" = "push" && (match jArr st "slots" with | .ok a => a.toList.any (fun s => jBoolD s "bad" false) | _ => false))
     | "C04" => steps.toList.any (fun st => let k := jStrD st "o" ""; k = "recvfail" || k = "authfail")
+    | "C19" => steps.toList.any (fun st => jStrD st "o" "" = "tick" && (match (st.getObjVal? "obs").toOption.bind (fun o => (jArr o "reqs").toOption) with | some a => !a.isEmpty | none => false))
     | _ => steps.size ≥ 10
   return { nontrivial := nt, mismatch := r.mismatch, specfail := r.spec.head? }
 
